@@ -40,6 +40,7 @@ STRENGTHENED = {
     "C01-stale-inflater-output": "`sess multi`",
     "C07-reclaim-blocking-lock": "`faults stall-readloop` + fact `readLoopNeverWaitsForWriteLock`",
     "C14-broadcaster-close-twice": "own suite: broadcaster closed twice, the released frames re-used at once",
+    "C15-failfast-bypasses-queue": "taskq suite: tasks submitted through WriteAsync/WritevAsync (`w`, `v`) among gated tasks, before and after the connection ended; fact `asyncApisOnlySubmit`",
     "C18-zero-copy-masks-caller-slice": "own write-apis: caller payloads are compared DURING every transport write the call causes (observer in the in-memory transport), larger sizes and the binary opcode",
     "C09-setdeadline-takes-write-lock": "`faults deadline-stall <role> late`: a watchdog goroutine sets the write deadline AFTER the writer has stalled (the in-memory transport now wakes a stalled write when its deadline changes); verdict: the deadline call must return, then the usual teardown",
     "C08-broadcast-remask-shared-frame": "`racy bc-two-clients`: ONE broadcaster serving two client-side connections at once (race detector on the shared frame + every delivered payload compared)",
